@@ -11,6 +11,31 @@ CHECKS = {
          "Generated add/cancel/fetch histories over all listed queue parameterisations with adaptive, boundary-seeking timestamps are compared op by op with an independent model; bounded search, no proof of absence.",
          "Trusts the harness model (a vector of pending events) and the read-only hook snapshot; histories <= 60 (quick) / 400 (thorough) ops, times < 2^63 ns.",
          "DESIGN.md section 5, C01"),
+ "C02": ("exploration",
+         "property-based testing (proptest event programs on a raw Runtime) against the RefSim reference model; past-insertion attempts under catch_unwind",
+         "Generated event forests with boundary-seeking delays, start times and calendar parameters; every handler's observed clock is compared with the model timestamp, every past insertion must panic. Bounded search.",
+         "Trusts RefSim (~60 lines, independent of des); programs <= 40 (quick) / 150 (thorough) events; cqueue backend.",
+         "DESIGN.md section 5, C02"),
+ "C03": ("exploration",
+         "property-based testing: queue-level histories with a tie-order oracle + metamorphic/differential runs of tie-biased event programs across queue parameterisations and ballast sizes, against RefSim",
+         "The stated tie rule is executed by RefSim and compared with the real dispatch order under several (n,t) and ballast sizes; bounded search.",
+         "Default feature set (cqueue) only, as the property states; alternative widths within 1/2..7x.",
+         "DESIGN.md section 5, C03"),
+ "C10": ("exploration",
+         "property-based testing: differential (stepped vs uninterrupted run of the same program) + model-based per-step reports + generated external adds while paused",
+         "Generated step schedules with cuts at, below and above event timestamps and inside tie groups; bounded search.",
+         "Trusts RefSim for per-step counts and for traces with external events; <= 10 steps, <= 30/100 events.",
+         "DESIGN.md section 5, C10"),
+ "C11": ("exploration",
+         "property-based testing: generated limit trees and Builder call sequences; oracle = independent limit evaluator over the unlimited run's trace + RefSim pending set",
+         "Boundary-seeking n (total-2..total+2) and T (event timestamps +-1ns), nested And/Or; bounded search.",
+         "Assumes several Builder limit calls compose with Or (anchor); trusts the harness' evaluator (10 lines).",
+         "DESIGN.md section 5, C11"),
+ "C15": ("exploration",
+         "property-based testing: op histories x 14 payload types x page sizes; oracle = allocator/list snapshot invariants (disjoint, aligned, in-page), drop counters, byte patterns; ASan libFuzzer campaign in the thorough tier",
+         "Every intermediate allocator state of generated histories is checked for overlap/misalignment/out-of-page, every payload for exactly-once drop; bounded search.",
+         "Trusts the read-only hook snapshot (bounded walks); intra-page overlap is only visible through it.",
+         "DESIGN.md section 5, C15"),
 }
 REASON_TODO = "check not built yet in this revision (planned, see DESIGN.md section 5)"
 
